@@ -8,6 +8,8 @@ namespace cv = covfie::vector;
 template <int T> struct ftype;
 template <> struct ftype<0> { using type = cb::strided<cv::size2, cb::array<cv::float1>>; using other = cb::morton<cv::size2, cb::array<cv::float1>, false>; };
 template <> struct ftype<1> { using type = cb::morton<cv::size2, cb::array<cv::float1>, false>; using other = cb::strided<cv::size2, cb::array<cv::float1>>; };
+// same layout under both interpolators: a conversion that steals from its source goes through the storage's own move constructor
+template <> struct ftype<3> { using type = cb::affine<cb::linear<cb::strided<cv::size2, cb::array<cv::float1>>>>; using other = cb::affine<cb::nearest_neighbour<cb::strided<cv::size2, cb::array<cv::float1>>>>; };
 template <> struct ftype<2> { using type = cb::affine<cb::linear<cb::strided<cv::size2, cb::array<cv::float1>>>>; using other = cb::affine<cb::nearest_neighbour<cb::morton<cv::size2, cb::array<cv::float1>, false>>>; };
 
 enum { EMPTY = 0, LIVE = 1, MOVED = 2 };
@@ -22,7 +24,7 @@ template <class O> static auto & layout_of_data(O & o)
     else return layout_of_data(o.get_backend());
 }
 
-template <class B> struct world {
+template <class B, class Other> struct world {
     using F = field<B>;
     static constexpr size_t NS = 3;
     alignas(F) unsigned char mem[NS][sizeof(F)];
@@ -159,8 +161,6 @@ template <class B> struct world {
             break;
         case OP_CONVERT: {
             vf_assume(state[a] == EMPTY && state[b] == LIVE);
-            using OB = typename ftype<0>::type;     // placeholder, replaced below
-            (void)sizeof(OB);
             convert(a, b);
             copy_model(a, b); state[a] = LIVE;
             break;
@@ -196,12 +196,12 @@ template <class B> struct world {
         }
     }
 
-    template <class Other> void convert_via(size_t a, size_t b)
+    template <class Oth> void convert_via(size_t a, size_t b)
     {
-        field<Other> tmp(at(b));           // into the other representation ...
+        field<Oth> tmp(at(b));           // into the other representation ...
         new (mem[a]) F(tmp);               // ... and back
     }
-    void convert(size_t a, size_t b);
+    void convert(size_t a, size_t b) { convert_via<Other>(a, b); }
 
     void teardown()
     {
@@ -211,23 +211,21 @@ template <class B> struct world {
     }
 };
 
-template <> void world<ftype<0>::type>::convert(size_t a, size_t b) { convert_via<ftype<0>::other>(a, b); }
-template <> void world<ftype<1>::type>::convert(size_t a, size_t b) { convert_via<ftype<1>::other>(a, b); }
-template <> void world<ftype<2>::type>::convert(size_t a, size_t b) { convert_via<ftype<2>::other>(a, b); }
 
 // inductive step: arbitrary pre-state over NSLOTS slots, one operation OP with symbolic slot arguments
 template <int T, int OP, size_t NSLOTS> static void step_h()
 {
     using B = typename ftype<T>::type;
-    static world<B> w;
+    using W = world<B, typename ftype<T>::other>;
+    static W w;
     w.live0 = vf_heap_live();
-    for (size_t i = 0; i < world<B>::NS; i++) w.state[i] = EMPTY;
+    for (size_t i = 0; i < W::NS; i++) w.state[i] = EMPTY;
     for (size_t i = 0; i < NSLOTS; i++) {
         size_t st = vf_nondet_range(0, 2);
         if (st == EMPTY) continue;
         w.create(i, vf_nondet_range(1, 2), vf_nondet_range(1, 2));
         if (st == MOVED) {
-            typename world<B>::F tmp(std::move(w.at(i)));      // leaves slot i moved-from; tmp dies here
+            typename W::F tmp(std::move(w.at(i)));      // leaves slot i moved-from; tmp dies here
             w.state[i] = MOVED;
         }
     }
@@ -243,9 +241,10 @@ template <int T, int OP, size_t NSLOTS> static void step_h()
 template <int T, size_t LEN, size_t NSLOTS> static void hist_h()
 {
     using B = typename ftype<T>::type;
-    static world<B> w;
+    using W = world<B, typename ftype<T>::other>;
+    static W w;
     w.live0 = vf_heap_live();
-    for (size_t i = 0; i < world<B>::NS; i++) w.state[i] = EMPTY;
+    for (size_t i = 0; i < W::NS; i++) w.state[i] = EMPTY;
     for (size_t step = 0; step < LEN; step++) {
         size_t op = step == 0 ? size_t(OP_CREATE) : vf_nondet_range(0, NOPS - 1);
         size_t a = vf_nondet_range(0, NSLOTS - 1), b = vf_nondet_range(0, NSLOTS - 1);
